@@ -287,4 +287,17 @@ def r6_trim_start_impl(ctx):
     ctx.obs[:] = [o for o in ctx.obs if not (o["rule"] == "R6" and "skip_whitespace" not in o["site"] and not o["site"].startswith("floor:"))]
 
 
-RULES = [("R1", r1_confinement), ("R2", r2_only_adds), ("R3", r3_empty_dropped), ("R4", r4_expand), ("R5", r5_setters), ("R6", r6_trim_start_impl)]
+def r7_options_stay(ctx):
+    """The options are the user's: the only code that writes one while reading is read_to_end, which clears
+    trim_text_start for the duration of the skip.  Unless it writes the saved value back on every exit (errors
+    included), every later text event is read with an option the user did not choose.  C12's save/restore rule is
+    re-evaluated here."""
+    import c12
+    n0 = len(ctx.obs)
+    c12.r1_restore(ctx)
+    for o in ctx.obs[n0:]:
+        o["site"] = "read_to_end:" + o["site"]
+        o["rule"] = "R7"
+
+
+RULES = [("R1", r1_confinement), ("R2", r2_only_adds), ("R3", r3_empty_dropped), ("R4", r4_expand), ("R5", r5_setters), ("R6", r6_trim_start_impl), ("R7", r7_options_stay)]
